@@ -8,13 +8,16 @@
 (*   Dead_Code      non-last children of a block that are constants (DropIds: and bare       *)
 (*                  identifiers, the pinned behaviour) are removed                           *)
 (*   Return         a trailing `return e` of a function body becomes `e`                     *)
-(* (Block -> Scopeless_Block, For_Loop -> compiled loop, Assign_Decl, Unused_Return and      *)
-(*  Partial_Fold change no ChaiCore-observable behaviour by construction; their effect on    *)
-(*  the real engine is covered by the differential replay with both parsers.)                *)
+(*   Partial_Fold   `e op <number literal>` keeps the literal inside the node, which then    *)
+(*                  takes the numeric shortcut whenever e evaluates to a number.             *)
+(*                  FoldAnyRight = TRUE is a modelled regression: any literal is captured.   *)
+(* (Block -> Scopeless_Block, For_Loop -> compiled loop, Assign_Decl and Unused_Return       *)
+(*  change no ChaiCore-observable behaviour by construction; their effect on the real        *)
+(*  engine is covered by the differential replay with both parsers.)                         *)
 (* OptEquiv: Run(Opt(p)) = Run(p) for every program handed in.                               *)
 EXTENDS ChaiCore
 
-CONSTANT DropIds
+CONSTANTS DropIds, FoldAnyRight
 
 IsLit(e) == e.k \in {"int", "bool", "str"}
 IntLit(v) == [k |-> "int", v |-> v]
@@ -25,6 +28,7 @@ FoldBin(e) ==
      (LET v == BinOp(M0, e.op, VInt(e.l.v), VInt(e.r.v)) IN
       IF v.t = "int" THEN IntLit(v.i) ELSE IF v.t = "bool" THEN BoolLit(v.i = 1) ELSE e)          \* a failing fold (1 / 0) is left for run time
   ELSE IF e.l.k = "bool" /\ e.r.k = "bool" /\ e.op \in {"==", "!="} THEN BoolLit(IF e.op = "==" THEN e.l.v = e.r.v ELSE e.l.v # e.r.v)
+  ELSE IF ~IsLit(e.l) /\ (e.r.k = "int" \/ (FoldAnyRight /\ IsLit(e.r))) THEN [k |-> "foldr", op |-> e.op, l |-> e.l, c |-> e.r]     \* Partial_Fold
   ELSE e
 
 RECURSIVE OptE(_), OptS(_), OptSeq(_, _), OptArgs(_, _), OptCases(_, _), OptEis(_, _), OptMethods(_, _), OptPairs(_, _)
